@@ -74,7 +74,7 @@ func rewriteQuery(query string, parameters map[string]any) (string, map[string]a
 
 		if parameterRewriter.rewritten {
 			rewritten = true
-			rewrittenParameters = parameterRewriter.rewrittenParameters
+			rewrittenParameters = parameterRewriter.ensureRewrittenParameters()
 		}
 	}
 
